@@ -68,7 +68,7 @@ Definition checked_decimal_op (o : arith) (a b : dec) : ares :=
   | OpSub => of_dres (dec_sub a b)
   | OpMul => of_dres (dec_mul a b)
   | OpDiv => match dec_div a b with
-             | DOk d => AVal (VNum d) true    (* the scale of a quotient is not modelled: compared as a rational *)
+             | DOk d | DRounded d => AVal (VNum d) false   (* mantissa and scale of a quotient are modelled exactly (Decimal.dec_div) *)
              | r => of_dres r
              end
   | OpRem => of_dres (dec_rem a b)
